@@ -451,9 +451,16 @@ pub fn gen_history(r: &mut Rng, check: &str, seed: u64, hc: &HistoryCfg) -> Scen
     let mut next_band = 0u32;
     let mut last_incomplete = false;
     // always start with some content
-    let first = g.burst(&model, &cfg, 1 + r.usize(cfg.max_burst));
+    let mut first = g.burst(&model, &cfg, 1 + r.usize(cfg.max_burst));
     for e in &first {
         model.apply(e);
+    }
+    if r.chance(1, 4) {
+        for e in g.extension_sibling_scaffold(&model, &cfg) {
+            if model.apply(&e) {
+                first.push(e);
+            }
+        }
     }
     steps.push(Step::Edit(first));
     while steps.len() < n_steps {
